@@ -38,7 +38,7 @@ CORPUS = {
         M("compare-materialised-negated", G, [('instruction = "s" + get_comparison_suffix(node.ops[0][0])', 'instruction = "s" + get_negated_comparison_suffix(node.ops[0][0])')], ["R01.b"]),
         M("negation-not-passed-to-helper", G, [("test_node, else_label, negate_test\n        ):", "test_node, else_label\n        ):")], ["R01.b"]),
         M("constant-test-ignores-not", G, [("            if bool(test_data.constant_value) != negate_test:\n                emit_else = False\n            else:\n                emit_if = False", "            if bool(test_data.constant_value):\n                emit_else = False\n            else:\n                emit_if = False")], ["R01.b"]),
-        M("alias-without-single-assignment", G, [("                can_assign_directly = not sym_data.is_overwritten\n                if can_assign_directly:\n                    sym_data.code_expr = (", "                can_assign_directly = True\n                if can_assign_directly:\n                    sym_data.code_expr = (")], ["R01.c"]),
+        M("alias-without-single-assignment", G, [("                can_assign_directly = not sym_data.is_overwritten and not (\n                    isinstance(value, IC10Register) and value.is_overwritten\n                )\n", "                can_assign_directly = True\n")], ["R01.c"]),
         M("inline-arg-alias-unguarded", G, [("                if arg_sym.is_overwritten:\n                    # need to copy", "                if False:\n                    # need to copy")], ["R01.c"]),
         _GUARD_CONSTPROP,
         M("ifexp-else-arm-gathered-twice", G, [("            if isinstance(node, nodes.If):\n                for child in node.orelse:\n                    self._visit_node(child)\n", "            if isinstance(node, nodes.If):\n                for child in node.orelse:\n                    self._visit_node(child)\n            if isinstance(node, nodes.IfExp):\n                self._visit_node(node.orelse)\n")], ["R01.p"]),
@@ -83,7 +83,7 @@ CORPUS = {
         M("math-name-log10-as-log", U, [('    "exp",\n}', '    "exp",\n    "log10",\n}')], ["R03.c"]),
         _GUARD_CONSTPROP,
         M("constant-table-wrong-variable", T, [('    "tau": tau,', '    "tau": pi,')], ["R03.e"]),
-        M("coercion-to-int", U, [("    return float(value)\n\n\ndef get_unop_instruction", "    return int(value)\n\n\ndef get_unop_instruction")], ["R03.f"]),
+        M("coercion-to-int", U, [("    return float(value)\n\n\ndef _c(value):", "    return int(value)\n\n\ndef _c(value):")], ["R03.f"]),
         M("fold-without-constness", G, [("        if data.is_constant:\n            data.result = IC10Operand(data.constant_value)\n            return\n\n        opcode, _ = get_unop_instruction(node.op)", "        if data.constant_value is not None:\n            data.result = IC10Operand(data.constant_value)\n            return\n\n        opcode, _ = get_unop_instruction(node.op)")], ["R03.g"]),
         M("folder-called-with-swapped-operands", CP, [("            val = func(left._ndata.constant_value, right._ndata.constant_value)\n            data.set_constant(val)", "            val = func(right._ndata.constant_value, left._ndata.constant_value)\n            data.set_constant(val)")], ["R03.h"]),
         M("folder-called-when-only-left-constant", CP, [("        if left._ndata.is_constant and right._ndata.is_constant:\n            _, func = get_binop_instruction(node.op)", "        if left._ndata.is_constant:\n            _, func = get_binop_instruction(node.op)")], ["R03.h"]),
@@ -167,7 +167,7 @@ CORPUS = {
         M("hash-of-lowercased-name", T, [("    val = calc_hash(name)\n", "    val = calc_hash(name.lower())\n")], ["R08.c"]),
         M("enum-value-shifted", U, [("        return enum_val.value\n", "        return enum_val.value + 1\n")], ["R08.d"]),
         M("mode-read-in-generator", G, [("        data = node._ndata\n        if isinstance(node.value, bool):", "        data = node._ndata\n        from .utils import is_compact_output\n        _c = is_compact_output()\n        if isinstance(node.value, bool):")], ["R08.e"]),
-        M("hex-for-negative-values", U, [("    if value <= 10000 or value in _all_hashes:", "    if abs(value) <= 10000 or value in _all_hashes:")], ["R08.g"]),
+        M("hex-for-negative-values", U, [("    if value <= 10000 or value in _all_hashes or value >= 2**53:", "    if abs(value) <= 10000 or value in _all_hashes or value >= 2**53:")], ["R08.g"]),
         N("fold-by-conditional", U, [("val = (val ^ 0x80000000) - 0x80000000", "val = val - 0x100000000 if val >= 0x80000000 else val")]),
         N("packing-by-multiplication", T, [("        val = val << 8 | ord(char)", "        val = val * 256 + ord(char)")]),
     ],
